@@ -18,11 +18,15 @@ def parse(abbr: str, config: Config):
     required transformations applied
     """
     snippets = config.cache.get('stylesheet_snippets') if config.cache is not None else None
+    if snippets is not None and config.cache.get('stylesheet_snippets_source') != config.snippets:
+        # Cache was filled for another snippet table
+        snippets = None
 
     if snippets is None:
         snippets = convert_snippets(config.snippets)
         if config.cache is not None:
             config.cache['stylesheet_snippets'] = snippets
+            config.cache['stylesheet_snippets_source'] = dict(config.snippets)
 
     if isinstance(abbr, str):
         abbr = abbreviation(abbr, { 'value': is_value_scope(config) })
